@@ -7,7 +7,7 @@ use crate::rng::Rng;
 
 const PALETTE: &[&str] = &[
     "", " ", "a b", "(", ")", "a(b", "\"", "\\", "a\\b", "\\x41;", "\\x41", "x41;", "1abc", "123", "-5", "+", "-", "...", ".",
-    "a.b", "#foo", "#t", "'", "`", ",", ",@", ";c", "|", "a|b", "|a b|", "λ", "Λ", "日本", "😀", "\n", "\t", "A", "a",
+    "a.b", "#foo", "#t", "->x", "-x", "+x", ".a", "x@y", "+5x", "1abc", "12foo", "7zip", "aA", "semi;colon", "end;", "'", "`", ",", ",@", ";c", "|", "a|b", "|a b|", "λ", "Λ", "日本", "😀", "\n", "\t", "A", "a",
     "x\u{0}y", "\u{feff}", "\u{a0}", "\u{2028}", "e\u{301}", "\u{e9}", "hello", "Hello", "hello ", "lambda", "if", "quote",
     "define", "else", "foo", "foo-bar!", "<=?", "a->b", "\u{10ffff}", "\u{ffff}", "\r\n", "a;b", "[x]", "{y}",
 ];
@@ -21,6 +21,47 @@ fn ident_like(s: &str) -> bool {
         && !s.starts_with('+')
         && !s.starts_with('-')
         && !s.contains('@')
+}
+
+const PECULIAR: &[&str] = &["+", "-", "...", "->x", "-x", "+x", ".a", "a.b", "x@y", "+5x"];
+
+/// A literal spelling of the symbol named `name` (None: the name has no literal spelling).  Characters that
+/// cannot stand in an identifier are written as inline hex escapes; `over` additionally escapes one character
+/// that needs no escape (every spelling of a name is the same symbol); `raw_digit` leaves a digit-initial name
+/// unescaped when the reader takes it for a symbol.
+fn spell(name: &str, over: bool, raw_digit: bool) -> Option<String> {
+    if name.is_empty() {
+        return None;
+    }
+    if PECULIAR.contains(&name) && !over {
+        return Some(name.to_string());
+    }
+    let cs: Vec<char> = name.chars().collect();
+    let plain = |i: usize, c: char| -> bool {
+        c.is_ascii_alphabetic()
+            || "!$%&*/:<=>?^_~".contains(c)
+            || (i > 0 && (c.is_ascii_digit() || "+-.@".contains(c)))
+            || (c as u32 > 0xff && c.is_alphabetic())
+    };
+    if raw_digit {
+        let ok = cs[0].is_ascii_digit()
+            && cs.iter().all(|c| c.is_ascii_alphanumeric() || "!$%&*:<=>?^_~".contains(*c))
+            && cs.iter().any(|c| "ghijklmnopqrstuvwyz".contains(*c));
+        return if ok { Some(name.to_string()) } else { None };
+    }
+    let over_at = if over { cs.iter().enumerate().position(|(i, c)| plain(i, *c)) } else { None };
+    if over && over_at.is_none() {
+        return None;
+    }
+    let mut out = String::new();
+    for (i, c) in cs.iter().enumerate() {
+        if plain(i, *c) && over_at != Some(i) {
+            out.push(*c);
+        } else {
+            out.push_str(&format!("\\x{:x};", *c as u32));
+        }
+    }
+    Some(out)
 }
 
 fn mkstr(s: &str) -> String {
@@ -59,9 +100,29 @@ fn pick_name(rng: &mut Rng) -> String {
 }
 
 /// a route producing a symbol named `name`; `strvar` holds a string with that name
-fn route(rng: &mut Rng, name: &str, strvar: &str) -> (String, &'static str) {
-    let idl = ident_like(name);
-    let k = rng.below(if idl { 8 } else { 3 });
+fn route(rng: &mut Rng, name: &str, strvar: &str, tags: &mut Vec<String>) -> (String, &'static str) {
+    // a literal spelling, if the name has one: plain, with the needed escapes, with one escape more than
+    // needed, or (digit-initial names the reader takes for symbols) without any
+    let lit: Option<String> = match rng.below(8) {
+        0 => spell(name, true, false).map(|x| {
+            tags.push("spelling:over-escaped".into());
+            x
+        }),
+        1 => spell(name, false, true).map(|x| {
+            tags.push("digit-initial-literal".into());
+            x
+        }),
+        _ => spell(name, false, false),
+    };
+    let lit = match lit {
+        Some(l) => Some(l),
+        None => spell(name, false, false),
+    };
+    let k = rng.below(if lit.is_some() { 8 } else { 3 });
+    if k >= 3 && lit.as_ref().map(|l| l.contains('\\')).unwrap_or(false) {
+        tags.push("spelling:escaped".into());
+    }
+    let l = lit.unwrap_or_default();
     match k {
         0 => (format!("(string->symbol {})", strvar), "string->symbol"),
         1 => (format!("(string->symbol (string-copy {}))", strvar), "string->symbol-copy"),
@@ -72,10 +133,10 @@ fn route(rng: &mut Rng, name: &str, strvar: &str) -> (String, &'static str) {
             let b: String = cs[h..].iter().collect();
             (format!("(string->symbol (string-append {} {}))", mkstr(&a), mkstr(&b)), "string->symbol-append")
         }
-        3 => (format!("'{}", name), "literal"),
-        4 => (format!("(car (cdr '(zz {} yy)))", name), "quoted-datum"),
-        5 => (format!("(eval '(quote {}))", name), "eval"),
-        7 => (format!("(mk-quoted {})", name), "macro-output"),
+        3 => (format!("'{}", l), "literal"),
+        4 => (format!("(car (cdr '(zz {} yy)))", l), "quoted-datum"),
+        5 => (format!("(eval '(quote {}))", l), "eval"),
+        7 => (format!("(mk-quoted {})", l), "macro-output"),
         _ => (format!("(car (eval (list 'quote (list (string->symbol {})))))", strvar), "eval-constructed"),
     }
 }
@@ -89,13 +150,16 @@ pub fn session(rng: &mut Rng) -> (Vec<String>, Vec<String>) {
     ];
     let nb = 1 + rng.below(3);
     for b in 0..nb {
+        if tags.iter().any(|t| t == "digit-initial-literal") {
+            break; // such a session holds one block only (its known finding must not cover other blocks)
+        }
         let u = b + 1;
         let n1 = pick_name(rng);
         let n2 = if rng.chance(1, 2) { n1.clone() } else { pick_name(rng) };
         f.push(format!("(define s{u}a {})", mkstr(&n1), u = u));
         f.push(format!("(define s{u}b {})", mkstr(&n2), u = u));
-        let (r1, t1) = route(rng, &n1, &format!("s{}a", u));
-        let (r2, t2) = route(rng, &n2, &format!("s{}b", u));
+        let (r1, t1) = route(rng, &n1, &format!("s{}a", u), &mut tags);
+        let (r2, t2) = route(rng, &n2, &format!("s{}b", u), &mut tags);
         tags.push(format!("route:{}x{}", t1, t2));
         let within_one_form = rng.chance(1, 3);
         let drop_first = rng.chance(1, 3);
